@@ -44,7 +44,7 @@ RC_KINDS = ["cat", "cat", "mr", "cat_date"]
 
 
 def gen_case(rng):
-    fam = rng.choice(["3d", "3d", "3d", "ca3d", "cubeset", "ca0th", "numeric", "single"])
+    fam = rng.choice(["3d", "3d", "3d", "ca3d", "cubeset", "ca0th", "numeric", "single", "augment"])
     if fam == "3d":
         kinds = [rng.choice(T_KINDS), rng.choice(RC_KINDS), rng.choice(RC_KINDS)]
         case = sc.gen_case(rng, kinds=kinds, max_n=3)
@@ -65,6 +65,25 @@ def gen_case(rng):
         case = sc.gen_case(rng, kinds=kinds, max_n=3)
     elif fam == "ca0th":
         case = sc.gen_case(rng, kinds=["ca", rng.choice(RC_KINDS)], max_n=3)
+    elif fam == "augment":
+        # single-column filter cube with fewer rows than the summary cube: padded with zero rows
+        n = rng.randint(2, 5)
+        cats = [{"id": i, "missing": False, "name": "t%d" % i, "numeric_value": None} for i in range(n)]
+        v = gen.Var("text", "v0", cats=cats)
+        survey = gen.gen_survey(rng, [v], weighted=False)
+        case = {"vars": [v.to_json()], "survey": gen.survey_to_json(survey), "weighted": False, "min_base": 0}
+        present = [i for i in range(n) if rng.random() < 0.6] or [rng.randrange(n)]
+        case["present"] = present
+        tr = {}
+        if rng.random() < 0.6:
+            d = {}
+            if rng.random() < 0.5:
+                d["prune"] = True
+            el = {str(c["name"]): {"hide": True} for c in cats if rng.random() < 0.25}
+            if el:
+                d["elements"] = el
+            tr = {"rows_dimension": d}
+        case["transforms"] = tr
     elif fam == "single":
         # a CubeSet of ONE response is that cube: same partitions (no CA-as-0th, no inflation)
         kinds = rng.choice([["ca"], ["ca", rng.choice(RC_KINDS)], [rng.choice(T_KINDS), rng.choice(RC_KINDS)],
@@ -138,7 +157,10 @@ NUMERIC = {"mean": "means", "sum": "sums", "stddev": "stddev", "median": "median
 
 
 def _get(obj, name):
-    return common.call_impl(lambda: getattr(obj, name))
+    def thunk():
+        v = getattr(obj, name)
+        return v() if callable(v) else v
+    return common.call_impl(thunk)
 
 
 def _compare_parts(findings, locus_prefix, a, b, measures, what):
@@ -211,6 +233,31 @@ def evaluate(case, louts, ctx):
             firsts.append(repr(_get(cube.partitions[k], "counts")))
         if len(set(firsts)) >= 2:
             key = (fam, tuple(v.kind for v in vars_), firsts[0])
+    elif fam == "augment":
+        A = vars_[0]
+        present = case["present"]
+        # the filter keeps the respondents whose answer is among `present` (so absent rows have zero count)
+        fsurvey = [(wt, ans) for wt, ans in survey if ans[0][0] in present]
+        summary = gen.cube_response([A], survey, w)
+        full = gen.cube_response([A], fsurvey, w)                   # what the augmented cube must equal
+        sub = gen.Var.from_json(dict(A.to_json(), cats=[c for i, c in enumerate(A.cats) if i in present]))
+        remap = {p: i for i, p in enumerate(present)}
+        filt = gen.cube_response([sub], [(wt, [[remap[ans[0][0]]]]) for wt, ans in fsurvey], w)
+        filt["result"]["is_single_col_cube"] = True
+        # ids must stay the summary's position ids
+        for el, p in zip(filt["result"]["dimensions"][0]["type"]["elements"], present):
+            el["id"] = p
+        tr = case.get("transforms") or {}
+        cs = CubeSet([copy.deepcopy(summary), copy.deepcopy(filt)], [None, copy.deepcopy(tr)], pop, 0)
+        ref = Cube(copy.deepcopy(full), transforms=copy.deepcopy(tr), population=pop).partitions[0]
+        psets = common.call_impl(lambda: [len(ps) for ps in cs.partition_sets])
+        if psets != [2]:
+            findings.append({"kind": "spec", "locus": "augment.partition_sets.shape", "detail": repr(psets)})
+        else:
+            part = cs.partition_sets[0][1]
+            _compare_parts(findings, "augment.partition", part, ref, STRAND_MEASURES + ["row_order", "population_counts_moe"],
+                           "augmented single-column cube vs the zero-padded cube; transforms %r" % (tr,))
+            key = (fam, tuple(present), repr(_get(ref, "counts")))
     elif fam == "single":
         resp = gen.cube_response(vars_, survey, w)
         cs = CubeSet([copy.deepcopy(resp)], [None], pop, 0)
